@@ -1,6 +1,6 @@
 (* C02/Proofs.v — tags are the union over all matching rules; tag-only rules never categorize. For all oracles. *)
 From Coq Require Import String Ascii List Bool ZArith Arith Lia Permutation.
-From Tally Require Import Lib.Str Engine.StrLib Engine.Model Engine.Lemmas C01.Proofs C09.Proofs.
+From Tally Require Import Lib.Str Engine.StrLib Engine.CaseMap Engine.Model Engine.Lemmas C01.Proofs C09.Proofs.
 Import ListNotations.
 Open Scope string_scope.
 
@@ -223,12 +223,12 @@ Lemma normalize_legacy_tags : forall tf lo_at rules amount date tfs t0 tg,
   let t := apply_transforms tf tfs t0 in
   let lo := lo_at (t_desc t) (t_fields t) in
   (In tg (ntags (normalize_legacy tf lo_at rules amount date tfs t0)) <->
-   exists r, In r rules /\ lmatch lo (upper (t_desc t)) amount date r = true /\ In tg (ltags lo (upper (t_desc t)) amount date r)).
+   exists r, In r rules /\ lmatch lo (py_upper (t_desc t)) amount date r = true /\ In tg (ltags lo (py_upper (t_desc t)) amount date r)).
 Proof.
   intros tf lo_at rules amount date tfs t0 tg H t lo. unfold normalize_legacy in *. fold t in H |- *. fold lo in H |- *.
-  rewrite lrun_lst0 in *. destruct (forallb (lok lo (upper (t_desc t)) amount date) rules); [|congruence].
+  rewrite lrun_lst0 in *. destruct (forallb (lok lo (py_upper (t_desc t)) amount date) rules); [|congruence].
   rewrite <- lfinal_tags_in.
-  destruct (ls_first (lfinal lo (upper (t_desc t)) amount date rules)); [reflexivity|].
+  destruct (ls_first (lfinal lo (py_upper (t_desc t)) amount date rules)); [reflexivity|].
   rewrite unknown_result_tags. reflexivity.
 Qed.
 
@@ -242,7 +242,7 @@ Proof.
   apply normalize_legacy_first_match in H1. apply normalize_legacy_first_match in H2. cbv zeta in H1, H2.
   rewrite find_app in H1, H2. cbn [find] in H1.
   assert (F : lcat_match (lo_at (t_desc (apply_transforms tf tfs t0)) (t_fields (apply_transforms tf tfs t0)))
-                         (upper (t_desc (apply_transforms tf tfs t0))) amount date t = false).
+                         (py_upper (t_desc (apply_transforms tf tfs t0))) amount date t = false).
   { unfold lcat_match, l_is_cat. rewrite Ht. cbn. apply andb_false_r. }
   rewrite F in H1.
   destruct (find _ pre) as [w|].
